@@ -187,6 +187,13 @@ func (s *stub) Notify(ctx context.Context, alerts ...*alert.Alert) (bool, error)
 	}
 	ev := Event{Inst: s.in.Name, Ev: "attempt", Start: now, Gk: gk, Ag: agid, Recv: s.recv, Integ: fmt.Sprintf("%s/%d", s.name, s.idx), Alerts: obs(alerts), Outcome: kind, Deadline: dl}
 	s.in.Log.Add(ev)
+	// a delivery takes time: with a clock that only moves when everybody sleeps, two flushes of
+	// one group could otherwise write the notification log at the same nanosecond, and the
+	// log keeps the first of two entries with equal timestamps
+	select {
+	case <-time.After(time.Millisecond):
+	case <-ctx.Done():
+	}
 	switch kind {
 	case "ok":
 		return false, nil
